@@ -420,3 +420,254 @@ func TestC05(t *testing.T)       { runProp(t, "C05", genC05, checkC05) }
 func TestC05Replay(t *testing.T) { replayProp(t, "C05", checkC05) }
 
 var _ = avm.ErrOutOfGas
+
+// ---- C06: gas conservation through join points --------------------------------
+
+func lastAspect(f *jpFiring) *aspectRun {
+	if f == nil || len(f.Aspects) == 0 {
+		return nil
+	}
+	return &f.Aspects[len(f.Aspects)-1]
+}
+
+func checkC06(sc *Scenario, st *Stats) *Violation {
+	an, bad := analyseJP(sc, ArtelaOpts{})
+	if bad != "" {
+		st.Exclude("panic-or-unbalanced(C03/C18)")
+		return nil
+	}
+	evs := an.art.Rec.Evs
+	ct := an.art.EVM.Tracer().CallTree()
+	burned, observed := false, false
+	var labels []string
+	lab := map[string]bool{}
+	addLab := func(l string) {
+		if !lab[l] {
+			lab[l] = true
+			labels = append(labels, l)
+		}
+	}
+	// (3) no frame of any kind returns more than it was given
+	for i, a := range an.attempts {
+		if a.GasKnown && a.RetGasOK && a.Returned > a.Gas {
+			return violf("returned>given", "attempt %d (op %02x at event %d): the caller got back %d gas, the callee was given %d", i, a.Op, a.Ev, a.Returned, a.Gas)
+		}
+	}
+	// (4a) an aspect never leaves more gas than it got
+	for _, f := range an.firings {
+		for _, ar := range f.Aspects {
+			if ar.ExitEv >= 0 && ar.GasOut > ar.GasIn {
+				return violf("aspect-gas", "aspect execution at event %d reports %d gas left of %d", ar.EnterEv, ar.GasOut, ar.GasIn)
+			}
+			if ar.GasIn > ar.GasOut {
+				burned = true
+			}
+		}
+	}
+	for _, F := range an.fl.Frames {
+		if F.Kind != CALL {
+			continue
+		}
+		pre, post := an.pre[F], an.post[F]
+		if len(pre) != 1 {
+			continue // not an eligible frame (C05 decides eligibility)
+		}
+		where := fmt.Sprintf("frame #%d (inv %d, to %x)", F.Idx, F.Inv, F.To)
+		p := pre[0]
+		att := an.byFrame[F]
+		idx, haveIdx := an.treeIdx[F]
+		var node *avm.Call
+		if haveIdx {
+			node = ct.FindCall(uint64(idx))
+		}
+		oogIdentity := func(what string) *Violation {
+			if F.ErrIs != avm.ErrOutOfGas {
+				return violf("oog-identity", "%s: %s join point ran out of gas but the frame ended with %T %q, not the EVM's own out-of-gas error", where, what, F.ErrIs, F.Err)
+			}
+			if node != nil && node.Err != avm.ErrOutOfGas {
+				return violf("oog-identity", "%s: %s join point ran out of gas but the call-tree node carries %v", where, what, node.Err)
+			}
+			if F.Top && F.Depth == 0 && an.art.Obs[F.Inv].ErrIs != avm.ErrOutOfGas {
+				return violf("oog-identity", "%s: %s join point ran out of gas but the entry point returned %v", where, what, an.art.Obs[F.Inv].ErrIs)
+			}
+			if att != nil && att.RetGasOK && att.Returned != 0 {
+				return violf("oog-returned", "%s: %s join point ran out of gas but %d gas was returned", where, what, att.Returned)
+			}
+			return nil
+		}
+		la := lastAspect(p)
+		if p.Err != "" {
+			if la != nil && la.Err == "out of gas" {
+				addLab("pre-out-of-gas")
+				if v := oogIdentity("pre"); v != nil {
+					return v
+				}
+			} else {
+				addLab("pre-failed-other")
+			}
+			continue
+		}
+		// (1) the callee starts with exactly what the pre join point left
+		if F.First >= 0 {
+			want := F.Gas
+			if la != nil {
+				want = la.GasOut
+			}
+			if got := evs[F.First].Gas; got != want {
+				return violf("callee-start-gas", "%s: callee's first instruction has %d gas, the pre join point left %d (call was given %d)", where, got, want, F.Gas)
+			}
+			if la != nil {
+				observed = true
+			}
+		}
+		if len(post) != 1 {
+			continue
+		}
+		q := post[0]
+		lq := lastAspect(q)
+		_, _, ngas, exact := frameNaturalResult(evs, F)
+		// the first post aspect starts with what the callee left
+		if len(q.Aspects) > 0 && exact && q.Aspects[0].GasIn != ngas {
+			return violf("post-start-gas", "%s: post join point starts with %d gas, the callee left %d", where, q.Aspects[0].GasIn, ngas)
+		}
+		// aspects on one join point are chained
+		for _, f := range []*jpFiring{p, q} {
+			for i := 1; i < len(f.Aspects); i++ {
+				if f.Aspects[i].GasIn != f.Aspects[i-1].GasOut {
+					return violf("chain-gas", "%s: aspect %d starts with %d gas, the previous one left %d", where, i, f.Aspects[i].GasIn, f.Aspects[i-1].GasOut)
+				}
+			}
+		}
+		if att == nil || !att.RetGasOK {
+			continue
+		}
+		switch {
+		case q.Err != "" && lq != nil && lq.Err == "out of gas":
+			addLab("post-out-of-gas")
+			if v := oogIdentity("post"); v != nil {
+				return v
+			}
+		case q.Err != "" && (q.Err == "execution reverted" || (lq != nil && lq.Err == "execution reverted")):
+			addLab("post-revert") // the statement leaves the gas outcome of an aspect revert open; law (3) applies
+		case q.Err != "":
+			addLab("post-failed-other")
+			if att.Returned != 0 {
+				return violf("post-fail-gas", "%s: the post join point failed (%.60s) but %d gas was returned", where, q.Err, att.Returned)
+			}
+			if F.Err == "" {
+				return violf("post-fail-ok", "%s: the post join point failed but the call reports success", where)
+			}
+		default:
+			// post passed: the caller gets back exactly what it left, if the frame
+			// succeeded or reverted; nothing otherwise
+			want := uint64(0)
+			if F.ErrIs == nil || F.ErrIs == avm.ErrExecutionReverted {
+				if lq != nil {
+					want = lq.GasOut
+					observed = true
+				} else if exact {
+					want = ngas
+				} else {
+					continue
+				}
+			}
+			if att.Returned != want {
+				return violf("returned-gas", "%s (err %q): the caller got back %d gas, the post join point left %d", where, F.Err, att.Returned, want)
+			}
+		}
+	}
+	// (4b) metamorphic: same run without aspects; if control flow is identical and
+	// no frame forfeits gas, the leftover differs exactly by the reported burns
+	if len(sc.Bindings) > 0 && len(sc.Faults) == 0 {
+		plain := sc.Clone()
+		plain.Bindings = nil
+		pr := RunArtela(plain, ArtelaOpts{Debug: true})
+		same := len(pr.Rec.Evs) > 0
+		forfeits := false
+		flow := func(evs []Ev) []string {
+			var out []string
+			for i := range evs {
+				e := &evs[i]
+				switch e.K {
+				case EvStep, EvFault:
+					out = append(out, fmt.Sprintf("%d/%d/%02x/%s", e.Depth, e.PC, e.Op, e.Err))
+				case EvExit, EvEnd:
+					out = append(out, "x:"+e.Err)
+					if e.Err != "" && e.Err != "execution reverted" {
+						forfeits = true
+					}
+				}
+			}
+			return out
+		}
+		fa, fb := flow(evs), flow(pr.Rec.Evs)
+		if len(fa) != len(fb) {
+			same = false
+		} else {
+			for i := range fa {
+				if fa[i] != fb[i] {
+					same = false
+					break
+				}
+			}
+		}
+		// a call attempt that fails for another reason than a revert forfeits an
+		// amount of gas that depends on how much was available (exceptional halt,
+		// refused create / address collision): burns then do not add up linearly
+		for _, a := range an.attempts {
+			if !a.Failed {
+				continue
+			}
+			if a.ErrKnown && a.ErrText == "execution reverted" {
+				continue
+			}
+			if a.Frame == nil && isCallKind(a.Op) && !a.Top {
+				continue // refused call (depth / balance): everything supplied comes back
+			}
+			forfeits = true
+		}
+		// a failing aspect changes the frame's error / gas fate: only runs in which
+		// every aspect succeeded are comparable
+		for _, f := range an.firings {
+			if f.Err != "" {
+				forfeits = true
+			}
+		}
+		if same && !forfeits {
+			addLab("metamorphic-compared")
+			burnsPerInv := map[int]uint64{}
+			for _, f := range an.firings {
+				if f.Frame == nil {
+					continue
+				}
+				for _, ar := range f.Aspects {
+					burnsPerInv[f.Frame.Inv] += ar.GasIn - ar.GasOut
+				}
+			}
+			for i := range sc.Invs {
+				a, b := an.art.Obs[i].Gas, pr.Obs[i].Gas
+				if b-a != burnsPerInv[i] {
+					return violf("metamorphic-burn", "invocation %d: leftover gas without aspects %d, with aspects %d, reported burns %d", i, b, a, burnsPerInv[i])
+				}
+			}
+		}
+	}
+	nontrivial := burned && observed
+	labels = append(labels, "fork:"+sc.Fork)
+	st.Case(sc.JSON(), nontrivial, sc, labels...)
+	return nil
+}
+
+func genC06(t *rapid.T) *Scenario {
+	sc := GenTreeScenario(t, TreeCfg{MaxInvs: 2, Budget: 6, EmptyData: 15, ValuePct: 30, LowGasPct: 35, NoSelfd: false})
+	specs := []AspectSpec{{Burn: 0, End: "ok"}, {Burn: 10, End: "ok"}, {Burn: 1000, End: "ok"}, {Burn: 30000, End: "ok"}, {Burn: 1000000000, End: "ok"},
+		{Burn: 10, End: "trap"}, {Burn: 1000, End: "revert"}, {Burn: 1000, End: "ok"}, {Burn: 10, End: "ok"}}
+	bindAspects(t, sc, specs, 75)
+	if chance(t, 15, "faults") {
+		sc.Faults = append(sc.Faults, Fault{Lookup: rapid.IntRange(0, 8).Draw(t, "faultat"), Text: "injected provider failure"})
+	}
+	return sc
+}
+
+func TestC06(t *testing.T)       { runProp(t, "C06", genC06, checkC06) }
+func TestC06Replay(t *testing.T) { replayProp(t, "C06", checkC06) }
